@@ -3,6 +3,7 @@
    Model/Fontmodel.v (font_of: the generated MonoFont record as the model's font record).  Statements only. *)
 From EG Require Import Base.Prelude Base.Casts Model.Geometry Model.Imageraw Model.Fontmodel Model.Textmodel.
 From EG Require Import Gen.SrcGeometry Gen.SrcFont Gen.SrcText Proofs.SrcText.
+From EG Require Import Proofs.SrcHelpers.
 
 Theorem C15_src_to_absolute_is_model : forall lh b, src_LineHeight_to_absolute lh b = to_absolute lh b.
 Proof. exact src_to_absolute_eq. Qed.
@@ -12,6 +13,13 @@ Proof. exact src_line_height_eq. Qed.
 Theorem C15_src_baseline_offset_is_model : forall s b iw ih,
   src_MonoTextStyle_baseline_offset s b = baseline_offset (font_of (MonoTextStyle_font s) iw ih) b.
 Proof. exact src_baseline_offset_eq. Qed.
+
+(* round 5: the decoration defaults (mono_font/mod.rs:194-204): strikethrough at half the glyph height (saturating), underline one
+   row below the glyph, both one pixel high *)
+Theorem C15_src_decoration_defaults : forall h,
+  src_DecorationDimensions_default_strikethrough h = Deco (sat_sub_u32 h 1 / 2) 1 /\
+  src_DecorationDimensions_default_underline h = Deco (h + 1) 1.
+Proof. exact src_decoration_defaults. Qed.
 
 Example C15_src_text_nonvacuous : src_LineHeight_to_absolute (LHPercent 150) 9 = 13.
 Proof. vm_compute. reflexivity. Qed.
